@@ -359,7 +359,32 @@ pub fn main(args: &[String]) {
             // definition groups built to be accepted and to terminate: functions calling later and earlier siblings, functions
             // recursive on a decreasing argument that also call a sibling, computed definitions reached through functions, local
             // groups (one or two definitions) inside function bodies, the result taken under further binders
-            for _ in 0..count {
+            // systematic part: a recursive function that calls a sibling, in every order of the group, entered 0..3 times
+            let fbodies = [
+                "if n <= 0 then 0 else f (n - 1) + g n",
+                "if n <= 0 then g 0 else f (n - 1)",
+                "if n <= 0 then 0 else (if p n then f (n - 1) else g n)",
+            ];
+            let mut sys = vec![];
+            for (bi, fb) in fbodies.iter().enumerate() {
+                let mut defs = vec![format!("f : (int -> int) = (n : int) => {fb}"), "g : (int -> int) = (m : int) => m * 2 + 1".to_string()];
+                if bi == 2 {
+                    defs.push("p : (int -> bool) = (k : int) => k > 1".to_string());
+                } else {
+                    defs.push("c : int = 2 + 2".to_string());
+                }
+                let orders: [[usize; 3]; 6] = [[0, 1, 2], [0, 2, 1], [1, 0, 2], [1, 2, 0], [2, 0, 1], [2, 1, 0]];
+                for o in orders {
+                    for arg in 0..4 {
+                        sys.push(format!("{}; {}; {}; f {arg}", defs[o[0]], defs[o[1]], defs[o[2]]));
+                    }
+                }
+            }
+            let nsys = sys.len().min(count / 2);
+            for t in sys.into_iter().take(nsys) {
+                emit(t, "groups");
+            }
+            for _ in nsys..count {
                 let nf = r.gen_range(2..5usize);
                 let nc = r.gen_range(0..3usize);
                 // rank: a function calls only functions of higher rank (no cycles); textual order is independent of rank
